@@ -30,6 +30,7 @@ import (
 	"github.com/smart-core-os/sc-golang/pkg/trait/electricpb"
 	"github.com/smart-core-os/sc-golang/pkg/trait/hailpb"
 	"github.com/smart-core-os/sc-golang/pkg/trait/metadatapb"
+	"github.com/smart-core-os/sc-golang/pkg/trait/modepb"
 	"github.com/smart-core-os/sc-golang/pkg/trait/onoffpb"
 	"github.com/smart-core-os/sc-golang/pkg/trait/openclosepb"
 	"github.com/smart-core-os/sc-golang/pkg/trait/parentpb"
@@ -521,7 +522,16 @@ func TestRaceModels(t *testing.T) {
 		pm := parentpb.NewModel()
 		mm := metadatapb.NewModel()
 		vm := vendingpb.NewModel()
-		hm := hailpb.NewModel()
+		// hails that arrived are collected by a pass inside CreateHail once per keep-alive period: make that period short
+		// enough to matter in some of the workloads
+		var hailOpts []resource.Option
+		if ka := rapid.SampledFrom([]int{-1, 0, 1, 50, 30000000}).Draw(t, "hailKeepAliveMicros"); ka != 30000000 {
+			hailOpts = append(hailOpts, hailpb.WithKeepAlive(time.Duration(ka)*time.Microsecond))
+		}
+		hm := hailpb.NewModel(hailOpts...)
+		mdm := modepb.NewModel()
+		mds := modepb.NewModelServer(mdm)
+		drain(ctx, mdm.PullModeValues(ctx), func(e modepb.ModeValuesChange) { touch(e.Value) })
 		pub := publicationpb.NewModel()
 		_, _ = vm.CreateStock(&traits.Consumable_Stock{Consumable: "cola", Used: &traits.Consumable_Quantity{Unit: traits.Consumable_LITER}, Remaining: &traits.Consumable_Quantity{Amount: 100, Unit: traits.Consumable_LITER}})
 		_, _ = pub.CreatePublication(&traits.Publication{Id: "p", Body: []byte("b")})
@@ -540,6 +550,39 @@ func TestRaceModels(t *testing.T) {
 		ocm := openclosepb.NewModel()
 		drain(ctx, ocm.PullPositions(ctx), func(e openclosepb.PullOpenClosePositionsChange) { touch(e.Positions) })
 		ops := []op{
+			func(g, i int) {
+				// a new device appears while the others are in use: models of one type share nothing but their defaults
+				switch i % 6 {
+				case 0:
+					touch(modepb.NewModel().ModeValues())
+				case 1:
+					_ = hailpb.NewModel(hailOpts...).ListHails()
+				case 2:
+					_ = electricpb.NewModel().Modes()
+				case 3:
+					_ = vendingpb.NewModel().ListInventory()
+				case 4:
+					r, _ := metadatapb.NewModel().GetMetadata()
+					touch(r)
+				default:
+					_ = parentpb.NewModel().ListChildren()
+				}
+			},
+			func(g, i int) {
+				touch(mdm.Modes())
+				for _, v := range mdm.AvailableValues([]string{"temperature", "spin", "nope"}[i%3]) {
+					touch(v)
+				}
+				touch(mdm.ModeValues())
+			},
+			func(g, i int) {
+				r, _ := mds.UpdateModeValues(ctx, &traits.UpdateModeValuesRequest{Name: "n", Relative: &traits.ModeValuesRelative{Values: map[string]int32{"temperature": int32(i%3 - 1), "spin": 1}}})
+				touch(r)
+			},
+			func(g, i int) {
+				r, _ := mdm.UpdateModeValues(&traits.ModeValues{Values: map[string]string{"spin": []string{"auto", "slow", "fast"}[i%3]}}, shared...)
+				touch(r)
+			},
 			func(g, i int) {
 				dir := []traits.OpenClosePosition_Direction{traits.OpenClosePosition_UP, traits.OpenClosePosition_DOWN, traits.OpenClosePosition_LEFT}[g%3]
 				r, _ := ocm.UpdatePosition(&traits.OpenClosePosition{Direction: dir, OpenPercent: float32(i)}, shared...)
@@ -635,7 +678,7 @@ func TestRaceModels(t *testing.T) {
 				}
 			},
 		}
-		desc := run(t, "Models(openclose,electric,parent,metadata,vending,hail,publication)", rapid.IntRange(4, 16).Draw(t, "n"), rapid.IntRange(5, 30).Draw(t, "k"), ops)
+		desc := run(t, "Models(mode,openclose,electric,parent,metadata,vending,hail,publication)", rapid.IntRange(4, 16).Draw(t, "n"), rapid.IntRange(5, 30).Draw(t, "k"), ops)
 		record("Models", desc)
 	})
 }
